@@ -35,6 +35,8 @@ def instances(tier, rng):
     cyc4 = vlib.universe("cyc", 4, maxe=6, k=2, w=2, l=1, cap=4)
     items = [(u, False) for u in C.spread(dag, 50 if quick else 400)] + \
             [(u, True) for u in C.spread(cyc, 10 if quick else 60) + C.spread(cyc4, 30 if quick else 400)]
+    mot = C.motifs()
+    items += [(u, False) for u in C.spread(mot[0], 6 if quick else 30)] + [(u, True) for u in C.spread(mot[1], 12 if quick else 30)]
     insts, groups = [], []
     g = 0
     # flows with zero edges: a constraint over a zero-flow edge can only be honoured by an extra (weight 0) route;
@@ -62,8 +64,20 @@ def instances(tier, rng):
             for cons in (cl if not quick else rng.sample(cl, min(2, len(cl)))):
                 cov = rng.choice(COVS)
                 feats.append({"cons": cons, "cov": cov})
+            if not cyc_:
+                # length coverage (DAG models only): lengths on some edges (absent = 1), fraction of the listed LENGTH
+                for cons in rng.sample(cl, min(2 if quick else len(cl), len(cl))):
+                    feats.append({"cons": cons, "covlen": rng.choice([[1, 2], [3, 4], [7, 10], [17, 20], [1, 1]]),
+                                  "elen": [rng.choice([vlib.NONE, 1, 1, 2, 3, 5, 8]) for _ in u["edges"]]})
             if len(u["edges"]) >= 2:
                 feats.append({"ign": [list(rng.choice(u["edges"]))]})
+            if len(u["edges"]) >= 3 and u["proutes"]:
+                # larger ignore sets: everything off one planted route (the ignored part then carries flow values and
+                # cycle traversals the rest does not need), or a random proper subset
+                E = [list(e) for e in u["edges"]]
+                keep = {tuple(e) for e in C.route_edges(rng.choice(u["proutes"]))}
+                off = [e for e in E if tuple(e) not in keep]
+                feats.append({"ign": off if (off and keep and rng.random() < 0.6) else rng.sample(E, rng.randint(2, len(E) - 1))})
             if cls not in C.NO_STARTS_EDGE:
                 feats.append({"starts": [rng.choice(u["nodes"])]})
                 feats.append({"ends": [rng.choice(u["nodes"])]})
@@ -75,8 +89,8 @@ def instances(tier, rng):
                     r["wt"] = "int"
                 if cls not in C.MINCLS:
                     kp = max(1, len(u["proutes"]))
-                    r["k"] = kp + (1 if ("cons" in cfg and cfg["cov"] == [1, 1] and not cls.startswith("kFlowDecomp")) else 0)
-                if cls in C.MINCLS and ("cons" not in cfg or cfg["cov"] == [1, 1] or True):
+                    r["k"] = kp + (1 if ("cons" in cfg and cfg.get("cov") == [1, 1] and not cls.startswith("kFlowDecomp")) else 0)
+                if cls in C.MINCLS:
                     r["expect_solved"] = True
                 insts.append(r)
             # equivalences: error scale 0 == ignored ; starts/ends = [] == omitted
@@ -101,6 +115,24 @@ def instances(tier, rng):
                         r["k"] = max(1, len(u["proutes"]))
                     r["grp"] = g
                     groups.append(r)
+    # ignoring everything off one planted walk of a cyclic motif: the remaining walk may have to traverse IGNORED cycle
+    # edges more often than their (irrelevant) flow values suggest
+    for u in mot[1]:
+        E = [list(e) for e in u["edges"]]
+        for pr in u["proutes"]:
+            keep = {tuple(e) for e in C.route_edges(pr)}
+            off = [e for e in E if tuple(e) not in keep]
+            part = [e for e in E if tuple(e) in keep and e[0] != e[1]]
+            for ign in ([off] if off else []) + ([rng.sample(part, min(2, len(part)))] if len(part) >= 3 else []):
+                for cls in ("MinFlowDecompCycles", "kFlowDecompCycles"):
+                    r = C.base(u, cls)
+                    r["wt"] = "int"
+                    r["ign"] = ign
+                    if cls == "kFlowDecompCycles":
+                        r["k"] = max(1, len(u["proutes"]))
+                    else:
+                        r["expect_solved"] = True
+                    insts.append(r)
     C.with_ids(insts)
     C.with_ids(groups, start=len(insts) + 1)
     return insts, groups
@@ -125,7 +157,7 @@ def run(tier, seed):
     # k-models with constraints: solved exactly when a decomposition into <= k routes honouring the constraints exists
     kfd = []
     for r in main:
-        if r["cls"] in ("kFlowDecomp", "kFlowDecompCycles") and r["cons"] and r["ctor_exc"] == "none" and not r.get("timeout") and not r["ign"]:
+        if r["cls"] in ("kFlowDecomp", "kFlowDecompCycles") and (r["cons"] or r["ign"]) and r["ctor_exc"] == "none" and not r.get("timeout"):
             a = dict(r)
             a["bound"] = r["k"]
             a["expect"] = "reach" if r["solved"] else "unreach"
@@ -139,6 +171,8 @@ def run(tier, seed):
             res.count_class("solved_with_constraints")
             if r["cov"] != [1, 1]:
                 res.count_class("solved_with_partial_coverage")
+            if r["covlen"][0] > 0:
+                res.count_class("solved_with_length_coverage")
         if r["solved"] and r["ign"]:
             res.count_class("solved_with_ignored")
         if r["solved"] and (r["starts"] or r["ends"]):
@@ -146,10 +180,10 @@ def run(tier, seed):
     res.count_class("equivalence_groups", len({r["grp"] for r in grecs}))
     res.samples = [P.brief(r) for r in main[:2] + grecs[:1]]
     res.rule = ("TLC universes x 12 classes x {constraint lists (contiguous, non-contiguous, overlapping, duplicated) with coverage in "
-                "{1,3/4,1/2,1/3}, ignored edge, additional start, end, both}; ConstraintsHonoured by trace validation; optimum over "
+                "{1,3/4,1/2,1/3} or LENGTH coverage in {1/2,3/4,7/10,17/20,1} over random edge lengths (DAG models), ignored edge, additional start, end, both}; ConstraintsHonoured by trace validation; optimum over "
                 "exactly the admissible solutions by the Peel / Cover / Fit adversaries which take constraints, ignore sets and "
                 "starts/ends natively; equivalences (scale 0 == ignored, [] == omitted) by Trace_Groups")
-    return res.finish(known, require_classes=["solved_with_constraints", "solved_with_partial_coverage", "solved_with_ignored",
+    return res.finish(known, require_classes=["solved_with_constraints", "solved_with_partial_coverage", "solved_with_length_coverage", "solved_with_ignored",
                                               "solved_with_starts_ends", "equivalence_groups"])
 
 
